@@ -87,7 +87,10 @@ def check(prop, tier, seed):
     rep = Report(prop, tier, seed)
     n = common.tier_n(tier)
     # long runs are where an in-place update of a surviving agent would rewrite the past
-    items = common.choose_items(prop, tier, seed, n, select=lambda c: c["cfg"]["max_cycles"] >= 3, mode_fraction=0.05)
+    items = common.choose_items(prop, tier, seed, n, select=lambda c: c["cfg"]["max_cycles"] >= 3, mode_fraction=0.05,
+                                stress_fraction=0.3)
+    items += [{"b": k} for k in range(len(universe.battery()))]       # ties / plateaus: where "walk across the plateau" tweaks bite
+    items += [{"s": k} for k in range(len(universe.small_population_battery()))]
     items += [{"v": k} for k in universe.boundary_indices()]
     pairs = common.run_campaign(rep, items, opts={"utils": True, "seed": seed})
     counters, opts_seen = common.collect(rep, prop, pairs, lambda o: o["outcome"] == "ok" and o["stats"].get("snap_agents", 0) > 0)
